@@ -90,6 +90,9 @@ func (f *Frame) String() string {
 	if f.Post {
 		parts = append(parts, "S'")
 	}
+	if f.Log {
+		parts = append(parts, "L'")
+	}
 	return fmt.Sprintf("F%d{%s;%s}", f.ID, strings.Join(parts, " "), f.End)
 }
 
@@ -104,7 +107,8 @@ func (f *Frame) Code() []byte {
 		a.SStore(SlotPre, 1)
 	}
 	if f.Log {
-		a.PushU(0).PushU(0).Op(evmasm.LOG0)
+		// LOG1 with a topic naming the frame and the position (before / after its items)
+		a.PushU(uint64(2*f.ID + 1)).PushU(0).PushU(0).Op(evmasm.LOG1)
 	}
 	for i, it := range f.Items {
 		var to common.Address
@@ -146,6 +150,9 @@ func (f *Frame) Code() []byte {
 	}
 	if f.Post {
 		a.SStore(SlotPost, 1)
+	}
+	if f.Log {
+		a.PushU(uint64(2*f.ID + 2)).PushU(0).PushU(0).Op(evmasm.LOG1)
 	}
 	switch f.End {
 	case "revert":
